@@ -9,8 +9,9 @@ Shape L (configuration lattice), level exploration: the full Cartesian product
   x stretch        (linear, power, logarithmic, asinh with their parameters)
 
 plus EVERY named preset (through the library's own resolve function) on the whole data alphabet,
-the other forms the resolve function accepts, the public `show_2d` path for every preset, and the
-stretch/inverse identities on a 101-point grid.
+the other forms the resolve function accepts, the public `show_2d` path for every preset, the
+stretch/inverse identities on a 101-point grid, and a call-HISTORY part: every sequence of 2 (thorough 3) arrays with
+clearly different ranges pushed through ONE object per configuration, each call compared with a fresh object.
 
 Every point runs the real `CustomNormalization(...)(data)`. Oracles (none of them re-implements a
 stretch formula):
@@ -43,13 +44,15 @@ import numpy as np
 from mc.harness import Broken, Tally
 
 LEVEL = "exploration"
-TECHNIQUE = "full Cartesian lattice (data alphabet x limit mode x interval x stretch, every preset) on the real CustomNormalization, pairwise monotonicity and exact-rational limit oracles"
+TECHNIQUE = "full Cartesian lattice (data alphabet x limit mode x interval x stretch, every preset) on the real CustomNormalization, pairwise monotonicity and exact-rational limit oracles; all call histories up to depth 2/3 on one object against fresh objects"
 CLAIM = (
     "For every point of the stated lattice (6 dtypes x 4 contents x NaN/inf decorations x 2 shapes x 2 limit modes x "
     "56 (quick) or 89 (thorough) interval configurations x 10 stretches, every named preset and every form the resolve function accepts, and every "
     "preset through the public show_2d) the real normalisation keeps finite data unmasked inside [0,1], is non-decreasing "
     "over all ordered pairs of finite entries, reports the limits the configuration defines and sends them to 0 and 1, "
     "and masks every NaN; every stretch composed with its declared inverse is the identity on a 101-point grid. "
+    "Every history of 2 (quick) or 3 (thorough) calls of ONE object on arrays with different ranges returns, call by call, what a fresh object returns "
+    "(limits taken at call time follow the array of the call, limits frozen from data= stay frozen, process-wide default instances included). "
     "Exploration is the right level: the property quantifies over configurations and data kinds, not over histories."
 )
 NOTE = (
@@ -60,7 +63,8 @@ NOTE = (
 RULE = (
     "Cartesian product of the data, mode, interval and stretch alphabets (simplest first) plus all presets; one evaluation = one "
     "CustomNormalization built and called on one array. A point is non-trivial when its defined limits satisfy lower < upper "
-    "and the finite entries land on at least two distinct output values; distinct outcomes = distinct (output, mask) records."
+    "and the finite entries land on at least two distinct output values; distinct outcomes = distinct (output, mask) records. "
+    "History part: every sequence of 2/3 arrays from a 5-member alphabet per configuration on one object; non-trivial when the sequence holds two different arrays."
 )
 
 # ----------------------------------------------------------------------------- tolerances
@@ -342,12 +346,12 @@ def observe(a, mode, kw):
     return obs
 
 
-def measure(a, mode, kw, fin=None):
+def measure(a, mode, kw, fin=None, obs=None):
     """Observations + deviations from each relation. Returns (obs, dev, problems) where problems is a list of
-    (relation, message) judged with the module tolerances."""
+    (relation, message) judged with the module tolerances. `obs` may be a ready-made observation (history part)."""
     fin = fin if fin is not None else finite_exact(a)
     tol = TOL32 if a.dtype == np.float32 else TOL64
-    obs = observe(a, mode, kw)
+    obs = observe(a, mode, kw) if obs is None else obs
     probs = []
     if "exc" in obs:
         probs.append(("raises", f"raised {obs['exc']}; a normalised array was expected"))
@@ -685,6 +689,278 @@ def display_item(item, seed=0, quick=True):
     return t
 
 
+# ----------------------------------------------------------------------------- call histories on ONE object
+# Shape H inside this lattice check: the result of a call must not depend on what the object was applied to before.
+# A norm object without data= takes its limits from the array of *each* call (that is how list_of_arrays_to_rgba uses one
+# object for a whole list, and its default argument is one process-wide instance); an object built with data= keeps the
+# limits of that data for ever. Differential oracle: every call of a history equals the single call of a fresh object.
+# Equality is exact (same code, same input): worst deviation observed on the unchanged tree 0.0; the smallest effect of
+# "limits stick to the first array" is 1.0 (all ones / all zeros).
+HIST_ARRAYS = ["unit", "tens_nan", "sym", "int8_ramp", "f32_hundreds_nan_inf"]
+HIST_STRETCHES = [("linear", {}), ("power", {"power": 0.5}), ("logarithmic", {"logarithmic_index": 1000.0}), ("asinh", {"asinh_linear_range": 0.1})]
+HIST_INTERVALS = [
+    ("quantile", {}),
+    ("quantile", {"lower_quantile": 0.0, "upper_quantile": 1.0}),
+    ("quantile", {"lower_quantile": 0.25, "upper_quantile": 0.75}),
+    ("manual", {}),
+    ("manual", {"vmin": -1.0}),
+    ("manual", {"vmax": 12.0}),
+    ("manual", {"vmin": 2.0, "vmax": 11.0}),
+    ("centered", {}),
+    ("centered", {"vcenter": 12.0}),
+    ("centered", {"vcenter": 1.0, "half_range": 5.0}),
+]
+
+
+def history_arrays(seed):
+    rng = np.random.default_rng([seed, 20, 777])
+    unit = rng.random((3, 4))
+    tens = 10.0 + 5.0 * rng.random((3, 4))
+    tens[1, 2] = np.nan
+    sym = -4.0 + 8.0 * rng.random((3, 4))
+    ramp = np.array([-128, -64, 0, 63, 127], dtype=np.int8)
+    hund = (100.0 + 200.0 * rng.random((3, 4))).astype(np.float32)
+    hund[0, 1] = np.nan
+    hund[2, 3] = np.inf
+    arrs = dict(zip(HIST_ARRAYS, [unit, tens, sym, ramp, hund]))
+    for k, v in arrs.items():
+        f = v[np.isfinite(v)] if v.dtype.kind == "f" else v
+        if len(set(f.ravel().tolist())) < 2:
+            raise Broken(f"history array {k} has fewer than two distinct finite values")
+    return arrs
+
+
+def history_configs():
+    """(label, kwargs) — reduced interval x stretch alphabet plus every named preset."""
+    out = []
+    for it, ikw in HIST_INTERVALS:
+        for st, skw in HIST_STRETCHES:
+            kw = {"interval_type": it, "stretch_type": st}
+            kw.update(ikw)
+            kw.update(skw)
+            out.append((f"{it}{sorted(ikw.items())}/{st}", kw))
+    resolve, presets, _ = _resolve()
+    if resolve is not None and presets is not None:
+        for name in sorted(presets):
+            out.append(("preset:" + name, config_kwargs(resolve(name))))
+    return out
+
+
+def call_record(norm, a):
+    """One call of an existing object -> comparable record."""
+    try:
+        with warnings.catch_warnings():
+            warnings.simplefilter("ignore")
+            with np.errstate(all="ignore"):
+                out = norm(a.copy())
+    except Exception as e:
+        return {"exc": f"{type(e).__name__}: {e}"}
+    data = np.ma.getdata(out).astype(np.float64)
+    mask = np.ma.getmaskarray(out).copy()
+    return {"shape": tuple(np.shape(out)), "data": data.ravel(), "mask": mask.ravel(), "is_ma": isinstance(out, np.ma.MaskedArray)}
+
+
+def same_record(r1, r2):
+    if ("exc" in r1) or ("exc" in r2):
+        return r1.get("exc") == r2.get("exc") and ("exc" in r1) == ("exc" in r2)
+    if r1["shape"] != r2["shape"] or not np.array_equal(r1["mask"], r2["mask"]):
+        return False
+    keep = ~r1["mask"]
+    return bool(np.array_equal(r1["data"][keep], r2["data"][keep], equal_nan=True))
+
+
+def show_record(r):
+    if "exc" in r:
+        return "raised " + r["exc"]
+    d = np.where(r["mask"], np.nan, r["data"])
+    return str(np.round(d, 4).tolist())
+
+
+def history_item(item, seed=0, depth=2):
+    """All call histories for one configuration (index into history_configs())."""
+    cn = _lib()
+    label, kw = history_configs()[item]
+    arrs = history_arrays(seed)
+    fins = {k: finite_exact(v) for k, v in arrs.items()}
+    t = Tally()
+    ilabel = interval_label(kw)
+
+    def case_of(mode, hist, data=None):
+        return {"part": "history", "mode": mode, "config": label, "arrays": list(hist), "data": data}
+
+    # ---- reference: a fresh object, one call; judged by the usual clauses
+    fresh = {}
+    for name, a in arrs.items():
+        obs, dev, probs = measure(a, "lazy", kw, fins[name])
+        if probs:
+            probs.sort(key=lambda p: RELATION_ORDER.index(p[0]))
+            t.fail({"relation": probs[0][0], "mode": "lazy", "interval": ilabel, "dtype_kind": dtype_kind(a.dtype), "dtype": str(a.dtype), "arg_type": arg_type(kw), "via": "history-reference"},
+                   case_of("lazy", [name]), f"history reference {label} on {name}: {probs[0][1]}")
+        fresh[name] = call_record(cn.CustomNormalization(**kw), a)
+        t.case(key=None, nontrivial=False, outcome=("hist-fresh", label, name, show_record(fresh[name])))
+        t.extra["history_reference_calls"] += 1
+
+    # ---- lazy: one object without data=, every history of `depth` arrays (repeats included)
+    for hist in itertools.product(HIST_ARRAYS, repeat=depth):
+        norm = cn.CustomNormalization(**kw)
+        bad = None
+        for pos, name in enumerate(hist):
+            r = call_record(norm, arrs[name])
+            t.extra["history_lazy_calls"] += 1
+            if not same_record(r, fresh[name]):
+                also = ""
+                if "exc" not in r:
+                    o2 = dict(r)
+                    try:
+                        rep = norm.interval.get_limits(arrs[name].copy())
+                        o2["rep"] = (float(rep[0]), float(rep[1]))
+                    except Exception:
+                        o2["rep"] = None
+                    _, _, pr = measure(arrs[name], "lazy", kw, fins[name], obs=o2)
+                    if pr:
+                        also = " [clauses broken by this call: " + ", ".join(sorted({p[0] for p in pr})) + "]"
+                bad = (pos, name, r, also)
+                break
+        if bad:
+            pos, name, r, also = bad
+            t.fail({"relation": "result_independent_of_earlier_calls", "mode": "lazy", "interval": ilabel},
+                   case_of("lazy", hist),
+                   f"one CustomNormalization({ {k: v for k, v in kw.items() if v is not None} }) called on {' -> '.join(hist)}: call {pos + 1} (on {name}) gives {show_record(r)}, "
+                   f"a fresh object gives {show_record(fresh[name])} for the same array{also}")
+        nontrivial = len(set(hist)) > 1
+        t.case(key=("hist-lazy", label, hist) if nontrivial else None, nontrivial=nontrivial, outcome=("hist-lazy", label, hist, bad is None))
+        t.extra["history_lazy_sequences"] += 1
+
+    # ---- frozen: built with data=D, called on X, Y, X: identical input -> identical result, limits stay those of D
+    for dname in HIST_ARRAYS:
+        ref = {}
+        for x in HIST_ARRAYS:
+            ref[x] = call_record(cn.CustomNormalization(data=arrs[dname].copy(), **kw), arrs[x])
+        for x, y in itertools.permutations(HIST_ARRAYS, 2):
+            try:
+                norm = cn.CustomNormalization(data=arrs[dname].copy(), **kw)
+                lim0 = (norm.vmin, norm.vmax)
+            except Exception as e:
+                t.fail({"relation": "raises", "mode": "frozen", "interval": ilabel, "via": "history"}, case_of("frozen", [x, y, x], dname), f"{label} data={dname}: construction raised {type(e).__name__}: {e}")
+                break
+            recs = [call_record(norm, arrs[n]) for n in (x, y, x)]
+            t.extra["history_frozen_calls"] += 3
+            msg = None
+            if not same_record(recs[0], recs[2]):
+                msg = f"call 1 and call 3 on the same array {x} differ: {show_record(recs[0])} vs {show_record(recs[2])}"
+            elif not same_record(recs[0], ref[x]) or not same_record(recs[1], ref[y]):
+                k = 0 if not same_record(recs[0], ref[x]) else 1
+                msg = f"call {k + 1} on {(x, y)[k]} gives {show_record(recs[k])}, a fresh object built with the same data= gives {show_record(ref[(x, y)[k]])}"
+            elif (norm.vmin, norm.vmax) != lim0:
+                msg = f"limits moved from {lim0} to {(norm.vmin, norm.vmax)}"
+            if msg:
+                t.fail({"relation": "frozen_limits_stay_frozen", "mode": "frozen", "interval": ilabel}, case_of("frozen", [x, y, x], dname),
+                       f"CustomNormalization({ {k: v for k, v in kw.items() if v is not None} }, data={dname}) called on {x} -> {y} -> {x}: {msg}")
+            t.case(key=("hist-frozen", label, dname, x, y), nontrivial=True, outcome=("hist-frozen", label, dname, x, y, msg is None))
+            t.extra["history_frozen_sequences"] += 1
+    return t
+
+
+def default_instances():
+    """Module-level CustomNormalization instances reachable without constructing one: default arguments of the public
+    functions and module globals of the visualization package (found by introspection, nothing is assumed to exist)."""
+    import importlib
+    import inspect
+
+    cn = _lib()
+    found = []
+    seen = set()
+    for modname in ("quantem.core.visualization.visualization_utils", "quantem.core.visualization.visualization", "quantem.core.visualization.custom_normalizations"):
+        try:
+            mod = importlib.import_module(modname)
+        except Exception:
+            continue
+        for name, obj in sorted(vars(mod).items()):
+            if isinstance(obj, cn.CustomNormalization) and id(obj) not in seen:
+                seen.add(id(obj))
+                found.append((f"{modname}.{name}", obj, None))
+            if inspect.isfunction(obj) and getattr(obj, "__module__", None) == modname:
+                try:
+                    params = inspect.signature(obj).parameters
+                except (TypeError, ValueError):
+                    continue
+                for pname, prm in params.items():
+                    if isinstance(prm.default, cn.CustomNormalization) and id(prm.default) not in seen:
+                        seen.add(id(prm.default))
+                        found.append((f"{modname}.{name}({pname}=<default>)", prm.default, (obj, pname)))
+    return found
+
+
+def default_instance_item(item, seed=0):
+    """Every ordered pair of different arrays through each process-wide default instance (state restored around each pair),
+    and through the public function that owns the default argument."""
+    import copy
+
+    cn = _lib()
+    arrs = history_arrays(seed)
+    t = Tally()
+    for label, inst, owner in default_instances():
+        pristine = copy.deepcopy(inst.__dict__)
+
+        def restore():
+            inst.__dict__.clear()
+            inst.__dict__.update(copy.deepcopy(pristine))
+
+        # reference: an object configured like the default instance, freshly made for every single call
+        def fresh_obj():
+            o = copy.copy(inst)
+            o.__dict__ = copy.deepcopy(pristine)
+            return o
+
+        blank = cn.CustomNormalization()
+        if not (getattr(inst, "interval", None) == blank.interval and getattr(inst, "stretch", None) == blank.stretch and inst.vmin is None and inst.vmax is None):
+            t.extra["default_instance_not_blank_at_discovery"] += 1
+        try:
+            for x, y in itertools.permutations(HIST_ARRAYS, 2):
+                restore()
+                recs = [call_record(inst, arrs[x]), call_record(inst, arrs[y])]
+                refs = [call_record(fresh_obj(), arrs[x]), call_record(fresh_obj(), arrs[y])]
+                t.extra["history_default_instance_calls"] += 2
+                case = {"part": "history", "mode": "default_instance", "config": label, "arrays": [x, y], "data": None}
+                bad = None
+                for k in (0, 1):
+                    if not same_record(recs[k], refs[k]):
+                        bad = k
+                        break
+                if bad is not None:
+                    t.fail({"relation": "result_independent_of_earlier_calls", "mode": "default_instance", "interval": interval_label({"interval_type": "quantile"})}, case,
+                           f"{label} called on {x} -> {y}: call {bad + 1} (on {(x, y)[bad]}) gives {show_record(recs[bad])}, a fresh object gives {show_record(refs[bad])}")
+                t.case(key=("hist-default", label, x, y), nontrivial=True, outcome=("hist-default", label, x, y, bad is None))
+            # through the public function that owns the default: f([A]) then f([B]) must equal f([B], <param>=fresh object)
+            if owner is not None:
+                func, pname = owner
+                two_d = [n for n in HIST_ARRAYS if arrs[n].ndim == 2 and not (arrs[n].dtype.kind == "f" and not np.isfinite(arrs[n]).all())]
+                for x, y in itertools.permutations(two_d, 2):
+                    restore()
+                    case = {"part": "history", "mode": "default_instance", "config": label + " via function", "arrays": [x, y], "data": None}
+                    try:
+                        with warnings.catch_warnings():
+                            warnings.simplefilter("ignore")
+                            with np.errstate(all="ignore"):
+                                func([arrs[x].copy()])
+                                got = np.asarray(func([arrs[y].copy()]), dtype=np.float64)
+                                want = np.asarray(func([arrs[y].copy()], **{pname: fresh_obj()}), dtype=np.float64)
+                    except Exception as e:
+                        t.fail({"relation": "raises", "mode": "default_instance", "interval": "quantile", "via": "history"}, case, f"{func.__name__}([{x}]) then ([{y}]) raised {type(e).__name__}: {e}")
+                        t.case(key=None, nontrivial=False, outcome="exc")
+                        continue
+                    ok = got.shape == want.shape and bool(np.array_equal(got, want, equal_nan=True))
+                    if not ok:
+                        t.fail({"relation": "result_independent_of_earlier_calls", "mode": "default_instance", "interval": "quantile", "via": "function"}, case,
+                               f"{func.__name__}([{y}]) right after {func.__name__}([{x}]) differs from {func.__name__}([{y}], {pname}=<fresh object>): max difference {float(np.nanmax(np.abs(got - want))) if got.shape == want.shape else 'shape'}")
+                    t.case(key=("hist-default-func", label, x, y), nontrivial=True, outcome=("hist-default-func", label, x, y, ok))
+                    t.extra["history_default_function_pairs"] += 1
+        finally:
+            restore()
+        t.extra["history_default_instances"] += 1
+    return t
+
+
 # ----------------------------------------------------------------------------- stretch o inverse
 def stretch_objects():
     cn = _lib()
@@ -814,6 +1090,19 @@ def run(ctx):
                     ditems.append((d, name))
         ctx.pmap(display_item, ditems, chunk=4, label="show_2d", seed=ctx.seed, quick=quick)
 
+    # call histories on one object (lazy: every history of `depth` arrays; frozen: X, Y, X; process-wide default instances)
+    depth = 2 if quick else 3
+    hcfg = history_configs()
+    ctx.say(f"histories: {len(hcfg)} configurations x {len(HIST_ARRAYS)}^{depth} lazy histories + {len(HIST_ARRAYS)} x {len(HIST_ARRAYS) * (len(HIST_ARRAYS) - 1)} frozen histories")
+    ctx.pmap(history_item, list(range(len(hcfg))), chunk=1, label="histories", seed=ctx.seed, depth=depth)
+    ninst = len(default_instances())
+    if ninst == 0:
+        ctx.seam_missing.append("no module-level / default-argument CustomNormalization instance found")
+    else:
+        ctx.pmap(default_instance_item, [0], chunk=1, label="default-instances", seed=ctx.seed)
+    if ctx.tally.extra["history_lazy_sequences"] != len(hcfg) * len(HIST_ARRAYS) ** depth or ctx.tally.extra["history_frozen_sequences"] < len(hcfg) * 50:
+        raise Broken("history part did not enumerate every history")
+
     worst = inverse_identities(ctx.fail, ctx.tally)
     ctx.say(f"stretch/inverse identities: {ctx.tally.extra['inverse_identity_points']} compositions, worst deviation {worst:.3g}")
 
@@ -834,6 +1123,10 @@ def run(ctx):
             "presets": names,
             "resolve_forms": [f[0] for f in resolve_forms([(0, Fraction(0)), (1, Fraction(1))])] if resolve is not None else [],
             "display_norms": (names + DISPLAY_EXTRA) if ditems else [],
+            "history_arrays": HIST_ARRAYS,
+            "history_configurations": [c[0] for c in hcfg],
+            "history_shapes": f"lazy: every sequence of {depth} arrays (repeats included) on one object without data=; frozen: data=D then X, Y, X for every D and ordered pair X != Y; default instances: every ordered pair X != Y",
+            "default_instances": [d[0] for d in default_instances()],
         },
         bounds={
             "arrays": len(data),
@@ -841,6 +1134,8 @@ def run(ctx):
             "stretch_configurations": len(STRETCHES),
             "lattice_points": len(items) * len(specs) * len(STRETCHES),
             "inverse_grid_points": 101,
+            "history_depth": depth,
+            "history_configurations": len(hcfg),
         },
         tolerances={"float64_and_int": TOL64, "float32": TOL32, "stretch_inverse": TOL_INV},
     )
@@ -854,6 +1149,20 @@ def replay(ctx, case):
     if "inverse" in case:
         t = Tally()
         inverse_identities(lambda cls, c, msg: (ctx.fail(cls, c, msg) if c == case else None), t)
+        return
+    if case.get("part") == "history":
+        if case["mode"] == "default_instance":
+            t = default_instance_item(0, seed=ctx.seed)
+        else:
+            labels = [c[0] for c in history_configs()]
+            t = history_item(labels.index(case["config"]), seed=ctx.seed, depth=len(case["arrays"]) if case["mode"] == "lazy" else 2)
+        arrs = history_arrays(ctx.seed)
+        for n in case["arrays"]:
+            print(f"  {n}: {arrs[n].dtype}{arrs[n].shape} range [{np.nanmin(np.where(np.isfinite(arrs[n].astype(float)), arrs[n], np.nan)):.4g}, {np.nanmax(np.where(np.isfinite(arrs[n].astype(float)), arrs[n], np.nan)):.4g}]")
+        for f in t.fails:
+            if f["case"] == case or (f["case"].get("config") == case["config"] and f["case"].get("arrays") == case["arrays"] and f["case"].get("data") == case.get("data")):
+                ctx.fail(f["cls"], case, f["msg"])
+        print("  expected: every call equals the single call of a fresh object on the same array (limits of a data=-less object follow the array of the call; frozen limits stay frozen)")
         return
     d, mode, spec = case["data"], case["mode"], case["spec"]
     a = build_data(d, ctx.seed)
